@@ -164,12 +164,17 @@ def gen_forms(rng):
 def submit(archive, case, single, sol, obj, meas, extras):
     """archive.add / add_single with the arguments in the documented form the case asks for (`forms.args`): ndarrays
     (float64 values, cast on entry), nested lists / Python floats, keyword arguments, arrays already in the archive
-    dtype, non-contiguous views.  `obj` may be None (diversity optimisation)."""
+    dtype, non-contiguous views.  `obj` may be None (diversity optimisation).
+
+    After the call every array that was handed over is overwritten in place (a caller re-using its buffers): the
+    archive must not be affected, now or at a later remap."""
     form = case.get("forms", {}).get("args", "nd")
     npdt = NP[case["dtype"]]
     n = len(sol)
     if case.get("forms", {}).get("kworder") == "alt" and n and int(sol[0][0]) % 2:
         extras = dict(reversed(list(extras.items())))      # the extra fields as keywords in another order
+    sol = np.array(sol)                                     # private copies: what follows trashes them
+    extras = {k: np.array(v) for k, v in extras.items()}
     if form == "native":
         obj, meas = (None if obj is None else obj.astype(npdt)), meas.astype(NP[meas_dtype(case)])
     elif form == "strided" and n:
@@ -180,19 +185,35 @@ def submit(archive, case, single, sol, obj, meas, extras):
             bo = np.zeros(2 * n)
             bo[::2] = obj
             obj = bo[::2]
-    if single:
-        s1, o1, m1 = sol[0], (None if obj is None else obj[0]), meas[0]
-        e1 = {k: v[0] for k, v in extras.items()}
-        if form == "list":
-            s1, o1, m1 = s1.tolist(), (None if o1 is None else float(o1)), m1.tolist()
+    else:
+        obj, meas = (None if obj is None else np.array(obj)), np.array(meas)
+    owned = [sol, meas] + ([obj] if obj is not None else []) + list(extras.values())
+    try:
+        if single:
+            s1, o1, m1 = sol[0], (None if obj is None else obj[0]), meas[0]
+            e1 = {k: v[0] for k, v in extras.items()}
+            if form == "list":
+                s1, o1, m1 = s1.tolist(), (None if o1 is None else float(o1)), m1.tolist()
+            if form == "kw":
+                return archive.add_single(solution=s1, objective=o1, measures=m1, **e1)
+            return archive.add_single(s1, o1, m1, **e1)
+        if form == "list" and n:        # (an empty nested list carries no inner dimension)
+            lsol, lobj, lmeas = sol.tolist(), (None if obj is None else obj.tolist()), meas.tolist()
+            if form == "kw":
+                return archive.add(solution=lsol, objective=lobj, measures=lmeas, **extras)
+            return archive.add(lsol, lobj, lmeas, **extras)
         if form == "kw":
-            return archive.add_single(solution=s1, objective=o1, measures=m1, **e1)
-        return archive.add_single(s1, o1, m1, **e1)
-    if form == "list" and n:        # (an empty nested list carries no inner dimension)
-        sol, obj, meas = sol.tolist(), (None if obj is None else obj.tolist()), meas.tolist()
-    if form == "kw":
-        return archive.add(solution=sol, objective=obj, measures=meas, **extras)
-    return archive.add(sol, obj, meas, **extras)
+            return archive.add(solution=sol, objective=obj, measures=meas, **extras)
+        return archive.add(sol, obj, meas, **extras)
+    finally:
+        for arr in owned:
+            if isinstance(arr, np.ndarray) and arr.size and arr.flags.writeable:
+                if arr.dtype == object:
+                    arr[...] = None
+                elif arr.dtype.kind in "iu":
+                    arr[...] = 99
+                else:
+                    arr[...] = -777.25
 
 
 def make_archive(case, seed=0):
